@@ -55,6 +55,13 @@ def word_bv(k):
     return v
 
 
+def top_bv(name, width, base_rank):
+    """variables placed near the root, MSB first (for values that act as selectors / are
+    compared with constants: addresses, indices); base_rank in 16..99-width"""
+    assert 16 <= base_rank and base_rank + width <= 100
+    return tuple(M.newvar(base_rank + (width - 1 - i), "%s.%d" % (name, i)) for i in range(width))
+
+
 def ctl_var(name, idx):
     return M.newvar(100 + idx, "c%d" % idx)
 
